@@ -3,6 +3,7 @@ CONSTANTS
   MaxLen4 = 6
   MaxLen3 = 9
   MaxLen3b = 8
+  MaxCodons = 5
   RcLen = 5
   SeqLen = 3
   Families = {"translate", "seq", "load", "names", "text", "table", "ctor", "variants", "pin"}
